@@ -18,6 +18,7 @@ import (
 	"github.com/libp2p/go-libp2p/core/peer"
 	"github.com/libp2p/go-libp2p/core/peerstore"
 	"github.com/libp2p/go-libp2p/core/protocol"
+	"github.com/libp2p/go-libp2p/core/routing"
 	ma "github.com/multiformats/go-multiaddr"
 	"github.com/multiformats/go-multihash"
 
@@ -563,14 +564,200 @@ func c04FullrtConfigs(tier string) []vmc.Cfg {
 			}
 		}
 	}
+	// quorum family: three responders, every assignment of {none, seq 1, seq 2, seq 3, invalid, mis-keyed} to them, local
+	// {none, seq 1, seq 3}, quorum 0 (default) / 1 / 2, every arrival order
+	recs := []string{"none", "s1", "s2", "s3", "bad", "miskeyed"}
+	for _, local := range []string{"none", "s1", "s3"} {
+		for q := 0; q <= 2; q++ {
+			for m := 0; m < 216; m++ {
+				as := [3]string{recs[m%6], recs[(m/6)%6], recs[m/36]}
+				if tier != "thorough" {
+					// quick: at most one of the answers is not a plain valid record, and the assignment is not constant
+					odd := 0
+					for _, a := range as {
+						if a == "bad" || a == "miskeyed" || a == "none" {
+							odd++
+						}
+					}
+					if odd > 1 || (as[0] == as[1] && as[1] == as[2]) {
+						continue
+					}
+				}
+				for _, g := range []string{"search", "get"} {
+					out = append(out, vmc.Cfg{Name: fmt.Sprintf("fullrt-quorum/%s/q%d/local-%s/%s,%s,%s", g, q, local, as[0], as[1], as[2]), Data: c04fq{getter: g, q: q, local: local, remote: as}})
+				}
+			}
+		}
+	}
 	return out
+}
+
+type c04fq struct {
+	getter string
+	q      int
+	local  string
+	remote [3]string
 }
 
 func TestVMC_C04fullrt(t *testing.T) {
 	vmc.Main(t, vmc.Harness{ID: "C04", Configs: c04FullrtConfigs, Run: c04FullrtRun, Bubble: true})
 }
 
+// c04FullrtQRun: value search of the accelerated client with a quorum, answers delivered one at a time in every order.
+// An answer delivered while the result channel is still open has been processed by the search, so its value counts
+// for "the final value is at least as good as every valid value supplied by a processed answer".
+func c04FullrtQRun(x *vmc.X, c c04fq) {
+	e, err := newFRT(3, 0, WithSuccessWaitFraction(1))
+	if err != nil {
+		x.Failf("C04/setup", "%v", err)
+		return
+	}
+	defer e.close()
+	key := kid.KeyWithPrefix("v", "000", 0)
+	var crawl []crawled
+	ids := map[peer.ID]int{}
+	for i, cell := range []string{"000", "001", "100"} {
+		id := kid.Peer(cell, 6)
+		ids[id] = i
+		pe := e.w.Add(fmt.Sprintf("p%d", i), id, sim.BAll)
+		switch c.remote[i] {
+		case "s1", "s2", "s3":
+			pe.Records[key] = sim.Val(int(c.remote[i][1]-'0'), "remote")
+		case "bad":
+			pe.Records[key] = sim.Val(9, "bad")
+		case "miskeyed":
+			pe.Records[key] = sim.Val(8, "x")
+			pe.RecordKey[key] = key + "x"
+		}
+		crawl = append(crawl, crawled{id, i})
+	}
+	e.net.Instant = true
+	e.recrawl(crawl)
+	e.net.Instant = false
+	ctx, cancel := context.WithCancel(context.Background())
+	defer cancel()
+	best := -1
+	if c.local != "none" {
+		best = int(c.local[1] - '0')
+		if err := e.frt.valueStore.Put(ctx, key, sim.MakeRecord(key, sim.Val(best, "local"))); err != nil {
+			x.Failf("C04/setup", "%v", err)
+			return
+		}
+	}
+	var opts []routing.Option
+	if c.q > 0 {
+		opts = append(opts, kaddht.Quorum(c.q))
+	}
+	var mu gosync.Mutex
+	var emitted [][]byte
+	ended := false
+	go func() {
+		if c.getter == "search" {
+			ch, err := e.frt.SearchValue(ctx, key, opts...)
+			if err == nil {
+				for v := range ch {
+					mu.Lock()
+					emitted = append(emitted, v)
+					mu.Unlock()
+				}
+			}
+		} else {
+			v, err := e.frt.GetValue(ctx, key, opts...)
+			if err == nil {
+				mu.Lock()
+				emitted = append(emitted, v)
+				mu.Unlock()
+			}
+		}
+		mu.Lock()
+		ended = true
+		mu.Unlock()
+	}()
+	var order []string
+	for steps := 0; steps < 40; steps++ {
+		synctest.Wait()
+		mu.Lock()
+		over := ended
+		mu.Unlock()
+		pend := e.net.PendingEvents()
+		if over || len(pend) == 0 {
+			if !over {
+				time.Sleep(31 * time.Second)
+				synctest.Wait()
+				if len(e.net.PendingEvents()) == 0 {
+					mu.Lock()
+					over = ended
+					mu.Unlock()
+					if !over {
+						x.Failf("C04/fullrt-hang", "the value search has not returned although nothing is pending (%+v)", c)
+						return
+					}
+				} else {
+					continue
+				}
+			}
+			break
+		}
+		labels := make([]string, len(pend))
+		for i, p := range pend {
+			labels[i] = e.net.Label(p)
+		}
+		i := 0
+		if len(pend) > 1 {
+			i = x.Choose(len(pend), vmc.Order, "deliver "+fmt.Sprint(labels))
+		}
+		// the search is still running: this answer is processed
+		if pend[i].Kind == "req" && pend[i].Msg.GetType() == pb.Message_GET_VALUE {
+			if pi, ok := ids[pend[i].To]; ok {
+				order = append(order, c.remote[pi])
+				switch c.remote[pi] {
+				case "s1", "s2", "s3":
+					if s := int(c.remote[pi][1] - '0'); s > best {
+						best = s
+					}
+				}
+			}
+		}
+		time.Sleep(7 * time.Millisecond)
+		e.net.Deliver(pend[i])
+	}
+	synctest.Wait()
+	mu.Lock()
+	defer mu.Unlock()
+	if !ended {
+		x.Failf("C04/fullrt-hang", "the value search has not returned after 40 deliveries (%+v)", c)
+		return
+	}
+	val := sim.Validator()
+	shape := fmt.Sprintf("%s quorum=%d local=%s answers processed in order %v", c.getter, c.q, c.local, order)
+	for i, v := range emitted {
+		if err := val.Validate(key, v); err != nil {
+			x.Failf("C04/fullrt-invalid-value", "%s: the accelerated client yielded %q which the validator rejects: %v", shape, v, err)
+			return
+		}
+		if i > 0 && sim.Seq(v) <= sim.Seq(emitted[i-1]) {
+			x.Failf("C04/fullrt-not-improving", "%s: %q streamed after %q", shape, v, emitted[i-1])
+			return
+		}
+	}
+	if best >= 0 && (len(emitted) == 0 || sim.Seq(emitted[len(emitted)-1]) < best) {
+		x.Failf("C04/fullrt-not-the-best", "%s: final %q, but a valid value with seq %d was supplied by local storage or an answer processed before the search ended", shape, emitted, best)
+		return
+	}
+	if best < 0 && len(emitted) > 0 {
+		x.Failf("C04/fullrt-value-from-nowhere", "%s: no valid value was supplied but %q was returned", shape, emitted)
+		return
+	}
+	x.Eval(len(order) > 1)
+	x.Obs("%s -> %q", shape, emitted)
+	x.Outcome("%d values, %d answers processed", len(emitted), len(order))
+}
+
 func c04FullrtRun(x *vmc.X, cfg vmc.Cfg) {
+	if q, ok := cfg.Data.(c04fq); ok {
+		c04FullrtQRun(x, q)
+		return
+	}
 	d := cfg.Data.([3]string)
 	local, remote, getter := d[0], d[1], d[2]
 	e, err := newFRT(2, 0)
